@@ -10,13 +10,23 @@ import (
 
 // C02 unbonding payout: exactly once, exact amount, never early.
 type monC02 struct {
-	L Ledger
+	L    Ledger
+	dead bool
 }
 
 func newMonC02() *monC02 { return &monC02{} }
 func (m *monC02) Name() string { return "C02" }
 
 func (m *monC02) OnStep(r *Runner, st *Step) {
+	if m.dead {
+		return
+	}
+	if hookFailed(st) {
+		// C08's finding: the slash was only partly applied; "slashes applied while pending" is no longer known
+		m.dead = true
+		r.Probe("run_abandoned_after_hook_error")
+		return
+	}
 	post := st.Post
 	switch st.Kind {
 	case "op":
@@ -205,7 +215,7 @@ func (m *monC02) bucketEntries(s *Snap, e *UEntry) []string {
 }
 
 func (m *monC02) Finish(r *Runner) {
-	if r.Halted {
+	if r.Halted || m.dead {
 		return
 	}
 	r.Eval("C02.e")
